@@ -129,6 +129,48 @@ def make(n, kinds, jobs_hi, orders="rev", launch=True, signals=True, stop_early_
     return fn
 
 
+def scale_fn(g):
+    """Deep chain of skipped dependents; hundreds of failing tasks."""
+    from vlib import scale, fakeos
+    import conductor.cli.run as cli_run
+    shape = ("deep-chain-600", "fan-260-failing-255", "fan-260-failing-256")[g.choose("shape", 3)]
+    if shape.startswith("deep"):
+        specs = scale.chain(600) + [hrun.TaskSpec("ok", "run_command", []), hrun.TaskSpec("all", "group", [":t599", ":ok"])]
+        failing = {"t0"}
+        jobs = None
+    else:
+        specs = scale.fan(260)
+        failing = set("l%d" % i for i in range(int(shape.rsplit("-", 1)[1])))
+        jobs = 8
+    proj = hrun.Project()
+    try:
+        proj.write_tasks(specs)
+
+        class S(fakeos.Sched):
+            def status_for(self, kernel, proc):
+                return fakeos.StatusExited(3 if proc.name in failing else 0)
+        kern = fakeos.Kernel(S(), clock=fakeos.Clock())
+        res = hrun.invoke(cli_run.main, hrun.run_ns(task_identifier=specs[-1].ident, jobs=jobs), str(proj.root), kern, timeout=200)
+        D = shape
+        if isinstance(res.status, str):
+            g.require(False, "fail:crash:" + res.status[4:], "%s; %s" % (str(res.exc)[:200], D))
+        info = hrun.parse_run_output(res)
+        g.require(res.status == 1 and "ERROR:" in res.err, "fail:exit-status", "exit status %r with %d failing tasks; %s" % (res.status, len(failing), D))
+        g.require(sorted(info["failed_list"]) == sorted("//:" + n for n in failing), "fail:failed-list",
+                  "%d failed tasks listed, expected %d; %s" % (len(info["failed_list"]), len(failing), D))
+        spawned = [p.name for p in kern.tasks()]
+        if shape.startswith("deep"):
+            g.require(sorted(info["skipped_list"]) == sorted(["//:t%d" % i for i in range(1, 600)] + ["//:all"]), "fail:skipped-list",
+                      "%d skipped tasks listed, expected 600; %s" % (len(info["skipped_list"]), D))
+            g.require(sorted(spawned) == ["ok", "t0"], "fail:independent-task-not-run-once", "spawned %s; %s" % (spawned[:6], D))
+        else:
+            g.require(len(spawned) == 260 and len(set(spawned)) == 260, "fail:independent-task-not-run-once", "%d spawns; %s" % (len(spawned), D))
+        g.goal("hundreds of tasks in one run")
+        return {"nontrivial": True, "sample": {"case": D, "status": res.status, "failed": len(info["failed_list"]), "skipped": len(info["skipped_list"])}}
+    finally:
+        proj.cleanup()
+
+
 def spaces(tier):
     goals = ["failed task with a skipped dependent", "failed task with a spared independent task", "two failed tasks",
              "stop-early with a task still running"]
@@ -148,6 +190,8 @@ def spaces(tier):
                     "--stop-early, batched exits", depth=9,
                     preset={"e0_3": True, "e1_3": True, "e2_3": True, "k0": 0, "k1": 0, "k2": 0, "k3": 1, "rev3": False,
                             "stop_early": True, "jobs": 2}))
+    sp.append(Space("scale-deep-and-wide", scale_fn, "a chain of 600 tasks whose first task fails (599 skipped dependents + an independent task); "
+                    "a group over 260 parallelizable tasks of which 255 / 256 fail, --jobs 8", depth=2, goals=["hundreds of tasks in one run"]))
     sp.append(Space("n5-fanin-one-launch-failure", make(5, ("run_command", "group"), 2, launch=True, signals=False, max_fail=1),
                     "5 tasks: a group root over 4 parallelizable run_command tasks, every edge set among the four, --jobs 2, at most one "
                     "failure (failed launch or non-zero exit)", depth=10,
